@@ -2256,6 +2256,66 @@ class Canon:
             return flat
         return block(stmts)
 
+    def keys_to_items(self, stmts, module, cls):
+        """{k: f(M[k]) for k in M}  ->  {k: f(v) for k, v in M.items()}    for a local M that certainly is a dict: bound once, to a dict display /
+        comprehension / dict(..) or to a call of a function of the program annotated `-> dict[..]`; M is not written in between"""
+        defs = {}
+        for s_ in stmts:
+            for n in ast.walk(s_):
+                if isinstance(n, ast.Name) and isinstance(n.ctx, (ast.Store, ast.Del)):
+                    defs[n.id] = defs.get(n.id, 0) + 1
+        dicts = {}
+        for s_ in stmts:
+            if isinstance(s_, ast.Assign) and len(s_.targets) == 1 and isinstance(s_.targets[0], ast.Name) and defs.get(s_.targets[0].id) == 1:
+                v = s_.value
+                is_dict = isinstance(v, (ast.Dict, ast.DictComp)) or (isinstance(v, ast.Call) and u(v.func) == "dict")
+                if not is_dict and isinstance(v, ast.Call):
+                    callee = None
+                    if isinstance(v.func, ast.Attribute) and isinstance(v.func.value, ast.Name) and v.func.value.id == "self" and cls is not None:
+                        callee = cls.find_method(v.func.attr)[1]
+                    elif isinstance(v.func, ast.Name):
+                        callee = module.functions.get(v.func.id)
+                    if callee is not None and callee.returns is not None and u(callee.returns).split("[")[0].split(".")[-1] in ("dict", "Dict", "defaultdict", "OrderedDict"):
+                        is_dict = True
+                if is_dict:
+                    dicts[s_.targets[0].id] = s_
+        if not dicts:
+            return stmts
+        counter = [0]
+
+        class K(ast.NodeTransformer):
+            def _comp(self, node):
+                self.generic_visit(node)
+                g = node.generators[0]
+                if isinstance(g.target, ast.Name) and isinstance(g.iter, ast.Name) and g.iter.id in dicts and not g.is_async:
+                    k, m_ = g.target.id, g.iter.id
+                    parts = list(g.ifs) + [x for g2 in node.generators[1:] for x in [g2.iter, *g2.ifs]] + [getattr(node, f) for f in ("elt", "key", "value") if hasattr(node, f)]
+                    hits = [n for e in parts for n in ast.walk(e) if isinstance(n, ast.Subscript) and isinstance(n.value, ast.Name) and n.value.id == m_
+                            and isinstance(n.slice, ast.Name) and n.slice.id == k and isinstance(n.ctx, ast.Load)]
+                    others = [n for e in parts for n in ast.walk(e) if isinstance(n, ast.Name) and n.id == m_]
+                    if hits and len(others) == len(hits):
+                        counter[0] += 1
+                        v = f"kv{counter[0]}_"
+                        ids = {id(h) for h in hits}
+
+                        class S(ast.NodeTransformer):
+                            def visit_Subscript(self, n):
+                                if id(n) in ids:
+                                    return ast.copy_location(ast.Name(id=v, ctx=ast.Load()), n)
+                                return self.generic_visit(n)
+                        for f in ("elt", "key", "value"):
+                            if hasattr(node, f):
+                                setattr(node, f, S().visit(getattr(node, f)))
+                        g.ifs = [S().visit(x) for x in g.ifs]
+                        for g2 in node.generators[1:]:
+                            g2.iter = S().visit(g2.iter)
+                            g2.ifs = [S().visit(x) for x in g2.ifs]
+                        g.target = ast.Tuple(elts=[ast.Name(id=k, ctx=ast.Store()), ast.Name(id=v, ctx=ast.Store())], ctx=ast.Store())
+                        g.iter = ast.Call(func=ast.Attribute(value=ast.Name(id=m_, ctx=ast.Load()), attr="items", ctx=ast.Load()), args=[], keywords=[])
+                return node
+            visit_ListComp = visit_SetComp = visit_DictComp = visit_GeneratorExp = _comp
+        return [ast.fix_missing_locations(K().visit(s_)) for s_ in stmts]
+
     def mapping_mixins(self, stmts, module, cls):
         """inside a class that derives from (Mutable)Mapping without defining `get`, whose __getitem__ is `return self.A[key]`:
         self.get(k[, d]) is the mixin `try: return self[k] except KeyError: return d`, i.e. self.A.get(k[, d])"""
@@ -2844,6 +2904,7 @@ class Canon:
         b = norm.normalise_loops(b)
         from .nf import _generator_to_genexp
         b = _generator_to_genexp(b)
+        b = self.keys_to_items(b, module, cls)
         b = expr_norm(b)
         if not subst:
             b = norm.fuse_for_over_comp(b, pure_calls=_PURE_EXT)        # loops over a generator expression (an inlined generator helper)
